@@ -19,7 +19,7 @@ func NewPacketWriter(totalLen ...int) *Writer {
 	return &Writer{buf: bytebufferpool.Get()}
 }
 
-func (p2 *Writer) writeNumeric(p any) {
+func (p2 *Writer) writeNumeric(p any, size int) {
 	if p2.opError != nil {
 		return
 	}
@@ -28,26 +28,24 @@ func (p2 *Writer) writeNumeric(p any) {
 		p2.opError = newPacketError(err, "WriteNumeric write")
 		return
 	}
+
+	p2.written += size
 }
 
 func (p2 *Writer) WriteUint8(p uint8) {
-	p2.writeNumeric(p)
-	p2.written += 1
+	p2.writeNumeric(p, 1)
 }
 
 func (p2 *Writer) WriteUint16(p uint16) {
-	p2.writeNumeric(p)
-	p2.written += 2
+	p2.writeNumeric(p, 2)
 }
 
 func (p2 *Writer) WriteUint32(p uint32) {
-	p2.writeNumeric(p)
-	p2.written += 4
+	p2.writeNumeric(p, 4)
 }
 
 func (p2 *Writer) WriteUint64(p uint64) {
-	p2.writeNumeric(p)
-	p2.written += 8
+	p2.writeNumeric(p, 8)
 }
 
 func (p2 *Writer) WriteBytes(data []byte) {
